@@ -1481,12 +1481,12 @@ fn shrink(rp: &mut Replayer, case: &Case, ops: &[Op], target: &Target, focus: &[
     Some((case, cur))
 }
 
-fn repro_sql(case: &Case, ops: &[Op], target: &Target) -> Vec<String> {
+fn repro_sql(case: &Case, ops: &[Op], target: &Target, full: bool) -> Vec<String> {
     let mut v = case.ddl(true);
     let mut m = Model::new();
     for op in ops {
         if let Some((c, _)) = m.apply(op) {
-            v.push(short(&c.sql()));
+            v.push(if full { c.sql() } else { short(&c.sql()) });
         }
     }
     match target {
@@ -1553,12 +1553,16 @@ impl<'a> Run<'a> {
             match shrink(&mut rp, case, ops, &target, focus, if self.quick { 80 } else { 300 }, deadline) {
                 Some((c2, small)) => {
                     repro_ops = small.len();
-                    repro = Some(repro_sql(&c2, &small, &target));
+                    repro = Some(repro_sql(&c2, &small, &target, false));
                 }
                 None => self.ctx.count("not_reproduced_on_fresh_twins", 1),
             }
             self.shrink_runs += rp.runs;
             self.shrink_spent += t0.elapsed().as_secs_f64();
+        }
+        if repro.is_none() && first && sig.contains("/error:") {
+            // rare and important: keep the whole history in the evidence when it could not be shrunk
+            repro = Some(repro_sql(case, ops, &target, true));
         }
         let e = self.sigs.entry(sig.to_string()).or_insert(SigInfo { hits: 0, assertion: assertion.to_string(), repro: None, repro_ops, first_case: case_tag.to_string(), detail: detail.clone() });
         e.hits += 1;
@@ -1566,7 +1570,7 @@ impl<'a> Run<'a> {
             e.repro = repro.clone();
             e.repro_ops = repro_ops;
         }
-        let full = json!({"case": case_tag, "detail": detail, "minimal_history": repro, "history_len": ops.len(), "probe": match &target { Target::Probe(p, _) | Target::Ddl(p, _) => json!({"sql": p.sql(), "kind": p.kind, "sub": p.sub}), _ => J::Null }});
+        let full = json!({"case": case_tag, "detail": detail, "minimal_history": repro, "unshrunk_history": if repro.is_none() && first { Some(repro_sql(case, ops, &target, true)) } else { None }, "history_len": ops.len(), "probe": match &target { Target::Probe(p, _) | Target::Ddl(p, _) => json!({"sql": p.sql(), "kind": p.kind, "sub": p.sub}), _ => J::Null }});
         self.ctx.violation(assertion, sig, full);
     }
 
@@ -1819,6 +1823,9 @@ pub fn run(a: &Args) -> i32 {
         run.ctx.count("histories", 1);
         if hist_sigs.is_empty() {
             run.ctx.count("histories_without_discrepancy", 1);
+        }
+        if hist_sigs.iter().all(|s| s.contains("_literal/")) {
+            run.ctx.count("histories_without_discrepancy_other_than_literal_class", 1);
         }
         drop(tw);
         let _ = std::fs::remove_dir_all(scratch.root.join("A"));
